@@ -167,7 +167,7 @@ Theorem C05_c_timeout0_not_queued : forall s conn c,
 Proof. exact lock_timeout0_not_queued. Qed.
 Goal True. idtac "ASSUMPTIONS-OF C05_c_timeout0_not_queued". Abort.
 Print Assumptions C05_c_timeout0_not_queued.
-(* whenever Lock itself answers TIMEOUT (Timeout = 0 and not admitted; also the concurrent-check pre-checks and the
+(* whenever Lock itself answers TIMEOUT (Timeout = 0 and not accepted; also the concurrent-check pre-checks and the
    timeout-when-data flag), the reply is the immediate one for this request and nothing of it is retained: the record
    allocated for it is freed again, every other record, every wait queue and all timer structures are unchanged *)
 Theorem C05_c_immediate_timeout_retains_nothing : forall s conn c,
